@@ -24,6 +24,7 @@ import (
 	"os"
 	"path/filepath"
 	"sort"
+	"strings"
 	"syscall"
 
 	"cloud.google.com/go/storage"
@@ -198,6 +199,7 @@ func (o *GcsFile) readdirImpl(count int) ([]*FileInfo, error) {
 	}
 
 	path := o.resource.fs.ensureTrailingSeparator(o.resource.name)
+	_, ownPath := o.resource.fs.splitName(path)
 	if o.ReadDirIt == nil {
 		// log.Printf("Querying path : %s\n", path)
 		bucketName, bucketPath := o.resource.fs.splitName(path)
@@ -233,8 +235,13 @@ func (o *GcsFile) readdirImpl(count int) ([]*FileInfo, error) {
 			continue
 		}
 
-		if tmp.Name() == ownInfo.Name() {
-			// Hmmm
+		if object.Prefix == "" && object.Name == ownPath {
+			// the folder's own placeholder object
+			continue
+		}
+		if object.Name == "" && ownPath != "" &&
+			strings.TrimRight(object.Prefix, o.resource.fs.separator) == strings.TrimRight(ownPath, o.resource.fs.separator) {
+			// the folder's own prefix
 			continue
 		}
 
